@@ -8,11 +8,15 @@ import (
 	"crypto/sha256"
 	"encoding/hex"
 	"fmt"
+	"math/big"
+	"regexp"
 	"strconv"
 	"strings"
 )
 
-var realUFs = map[string]bool{"dec": true, "undec": true, "pu_ok": true, "sha256": true, "hexenc": true, "hexencU": true, "hexdec": true, "hex_ok": true, "tolower": true, "toupper": true, "trimspace": true, "be64": true, "unbe64": true}
+var idRe = regexp.MustCompile(`^[a-zA-Z0-9\.\_\+\-\#\[\]\<\>]+$`)
+
+var realUFs = map[string]bool{"dec": true, "undec": true, "pu_ok": true, "sha256": true, "hexenc": true, "hexencU": true, "hexdec": true, "hex_ok": true, "tolower": true, "toupper": true, "trimspace": true, "be64": true, "unbe64": true, "intenc": true, "intdec": true}
 
 func collectUFApps(ts []*T, seen map[*T]bool, out *[]*T) {
 	for _, t := range ts {
@@ -20,7 +24,7 @@ func collectUFApps(ts []*T, seen map[*T]bool, out *[]*T) {
 			continue
 		}
 		seen[t] = true
-		if t.Op == "uf" && realUFs[t.Name] && len(t.Args) == 1 {
+		if t.Op == "uf" && (realUFs[t.Name] || strings.HasPrefix(t.Name, "idvalid_")) && len(t.Args) == 1 {
 			*out = append(*out, t)
 		}
 		collectUFApps(t.Args, seen, out)
@@ -51,6 +55,13 @@ func mvToTerm(v ModelValue, s Sort) (*T, bool) {
 
 // realValue computes the real function behind a stand-in on a constant argument.
 func realValue(name string, arg *T) (*T, bool) {
+	if strings.HasPrefix(name, "idvalid_") {
+		var lo, hi int
+		fmt.Sscanf(name, "idvalid_%d_%d", &lo, &hi)
+		s := arg.Str
+		ok := strings.TrimSpace(s) != "" && !strings.Contains(s, "/") && len(s) >= lo && len(s) <= hi && idRe.MatchString(s)
+		return BoolConst(ok), true
+	}
 	switch name {
 	case "dec":
 		return StrConst(strconv.FormatUint(arg.BV, 10)), true
@@ -94,6 +105,14 @@ func realValue(name string, arg *T) (*T, bool) {
 			v = v<<8 | uint64(arg.Str[i])
 		}
 		return BVConst(v, 64), true
+	case "intenc":
+		return StrConst(arg.Int.String()), true
+	case "intdec":
+		v, ok := new(big.Int).SetString(arg.Str, 10)
+		if !ok || v.String() != arg.Str {
+			return nil, false
+		}
+		return IntConstBig(v), true
 	case "tolower":
 		return StrConst(strings.ToLower(arg.Str)), true
 	case "toupper":
